@@ -14,13 +14,13 @@ FIXTURE_KIND = 'suppr'
 QUICK_N = 2400
 CPU_LIMIT = 10
 DEP_EXEMPT = False
-LEGAL_READS = ('abidiff-suppr', 'abidw-suppr')
+LEGAL_READS = ('abidiff-suppr', 'abidw-suppr', 'abidiff-suppr-shapes')
 ASSUMPTIONS = ['decided part only: truncation, bit flips (which turn = , { } " \\ into something else), lost and misdirected sectors and short reads on valid suppression / whitelist files; a grammar-based generator is input generation and is not attempted',
                'closed enumerated space: every signature on the unchanged tree is listed in known_findings.json']
 
 
 def space(name, body):
-    return X.text_space(len(body), thin=2 if len(body) > 1500 else 1)
+    return X.text_space(len(body), thin=2 if len(body) > 1500 else 1, body=body if len(body) < 3000 else None, delims=b',={}[]"\\')
 
 
 weight = X.text_weight
@@ -29,17 +29,23 @@ weight = X.text_weight
 def commands(name):
     if name.startswith('kmi-'):
         return ['abidiff-kmi']
+    if name.startswith('rich-'):
+        # specifications written for this pool: they name the types, functions and members of the shapes family, so that
+        # their constraints (offsets of members, enumerators, parameters) are really evaluated against the binaries
+        return ['abidiff-suppr', 'abidiff-suppr-shapes', 'abidw-suppr', 'abicompat-suppr']
     return ['abidiff-suppr', 'abidw-suppr', 'abicompat-suppr']
 
 
 def applies(cmd, fi, f):
-    return cmd in ('abidiff-suppr', 'abidiff-kmi') or (cmd == 'abidw-suppr' and fi % 4 == 0) or (cmd == 'abicompat-suppr' and fi % 4 == 1)
+    return cmd in ('abidiff-suppr', 'abidiff-kmi', 'abidiff-suppr-shapes') or (cmd == 'abidw-suppr' and fi % 4 == 0) or (cmd == 'abicompat-suppr' and fi % 4 == 1)
 
 
 def command(ctx, it, cmd, dmg):
     L = ctx.libs
     if cmd == 'abidiff-suppr':
         return 'abidiff', ['abidiff', '--no-default-suppression', '--suppressions', dmg, L['alias_v0'], L['alias_v1']], None
+    if cmd == 'abidiff-suppr-shapes':
+        return 'abidiff', ['abidiff', '--no-default-suppression', '--suppressions', dmg, L['shapes_v0'], L['shapes_v2']], None
     if cmd == 'abidiff-kmi':
         return 'abidiff', ['abidiff', '--no-default-suppression', '--kmi-whitelist', dmg, L['alias_v0'], L['alias_v1']], None
     if cmd == 'abidw-suppr':
